@@ -20,7 +20,7 @@ CLAIMS = {
    text='Proof over code shape: packer fields are disjoint, cover the word, with the reference widths and order per version arm; unpacker extracts the same bit ranges and sign-extends at the field width (unpack o pack = id on the declared ranges); both sides switch on the same single boundary, which puts <=404 on the old and >=477 on the new layout; same for ChunkSectionPos and block records either side of 741.',
    note='Trusted: Python integer operator semantics, struct >Q; valid for every in-range value and all 369 versions.', ref='3/C04'),
  'C05': dict(cat='other', tech='wire-grammar extraction (regular expressions over codec tokens) and language inclusion writer <= reader, per version; definition folding',
-   text='Decides: the generic definition-driven reader/writer are mirror images; every class x version definition is well-formed (types resolve, no duplicate field, trailing array last); for every hand-written read/write pair and custom Type, every token sequence the writer can emit is parsed by the reader with the same codecs and field bindings, in every version; the id written is the registered id; constructor arguments of wire types stand in the role of their parameter; hand-written writers decide the presence of an optional field by is-not-None and every codec call of a hand-written reader / writer is made on the function\'s own stream; a hand-written reader does not decide what to read next by the truth of a decoded number or string unless the writer sends that value and decides by its truth too.',
+   text='Decides: the generic definition-driven reader/writer are mirror images; every class x version definition is well-formed (types resolve, no duplicate field, trailing array last); for every hand-written read/write pair and custom Type, every token sequence the writer can emit is parsed by the reader with the same codecs and field bindings, in every version; the id written is the registered id; constructor arguments of wire types stand in the role of their parameter; hand-written writers decide the presence of an optional field by is-not-None and every codec call of a hand-written reader / writer is made on the function\'s own stream; a hand-written reader does not decide what to read next by the truth of a decoded number or string unless the writer sends that value and decides by its truth too; no list of records is one object multiplied.',
    note='Value equality per codec is delegated to C02/C04; bindings are compared only where syntactically evident.', ref='3/C05'),
  'C06': dict(cat='proof', tech='exhaustive constant folding of get_packets/get_id over all versions (finite enumeration)',
    text='Complete decision: get_packets(context) and get_id(context) are folded for every supported version x 8 tables (thorough: all 369 known); each id must be a non-negative int and ids pairwise distinct; the reactor dict keys on get_id(context) of its own state table; wire id = table id; every predicate constant is a known version; get_packets/get_id and their helpers change no module- or class-level object (may-alias dataflow), so a table is a function of the version alone.',
@@ -32,25 +32,25 @@ CLAIMS = {
    text='The derived tables are folded from the literal record list through initglobals and equal an independently stated projection (order-preserving, duplicate-free, index strictly increasing); re-initialisation folds to the same tables, in place, also after extending the records; the two comparison functions and five context predicates are the chronological <, <=, >, >=, in-range (order types; thorough: all 136k pairs); nothing reachable from a predicate is memoised (decorator or self-filled cache), so a rebuilt table is seen at once; no function orders protocol numbers numerically where that differs from publication order on a supported version; ConnectionContext(protocol_version=v) is about v for every known v (0 included).',
    note='Trusted: fold evaluator; behaviour for ill-formed user records at run time is outside any static view.', ref='3/C08'),
  'C09': dict(cat='other', tech='path-sensitive effect summaries of connect/status/handle_status/StatusReactor.react compared with the negotiation decision table; field completeness of constructed packets; folding of the version helper',
-   text='Decides branch structure and ordering: both constructor inputs flow through one validating function (found by data flow), which returns only members of the supported set and otherwise raises ValueError (its own path summaries); _version_mismatch raises VersionMismatch with the right text for every way its two arguments can be given; single-version arm = handshake(playing)+login start from token profile or username, no status request; other arm = handshake(status)+request; status evaluation order (empty -> raise, missing -> default path, not allowed -> mismatch, else narrow+reconnect); EOF-only fallback; plain status calls the handler once, pings only on request, always disconnects; without an initial_version the default (fallback) version is the latest of the allowed versions.',
+   text='Decides branch structure and ordering: both constructor inputs flow through one validating function (found by data flow), which returns only members of the supported set and otherwise raises ValueError (its own path summaries); _version_mismatch raises VersionMismatch with the right text for every way its two arguments can be given; single-version arm = handshake(playing)+login start from token profile or username, no status request; other arm = handshake(status)+request; status evaluation order (empty -> raise, missing -> default path, not allowed -> mismatch, else narrow+reconnect); EOF-only fallback; plain status calls the handler once, pings only on request, always disconnects; without an initial_version the default (fallback) version is the latest of the allowed versions, by the publication order of tables that are the duplicate-free projection of the records.',
    note='Latency sign, JSON contents and server integers are run-time values: not decided.', ref='3/C09'),
  'C10': dict(cat='other', tech='path-sensitive effect summaries of LoginReactor.react grouped by packet name: per-arm dataflow and ordering obligations',
-   text='Decides per arm, on all paths: one secret flows to RSA encryption, hash and cipher; response fields get encrypted secret/token in the right slots; forced write dominates both wrapper installations; both socket and file object wrapped from one cipher; compression arm sets threshold and flag; plugin arm writes exactly one unsuccessful response with the request id; success installs the play reactor; disconnect arm always raises and only the chat object text member or the raw data reach the string consumers, and the mismatch helper it calls raises VersionMismatch also for a version name the tables do not know; the secret is generated afresh on every path and kept only in a local; the transport (file object) is re-read from the connection for every packet so the cipher applies to the very next frame; the forced write writes only its own packet, and the compression / encryption arms put nothing else on the wire before the framing is switched; no two classes of a login table share an id in any supported version.',
+   text='Decides per arm, on all paths: one secret flows to RSA encryption, hash and cipher; response fields get encrypted secret/token in the right slots; forced write dominates both wrapper installations; both socket and file object wrapped from one cipher; compression arm sets threshold and flag; plugin arm writes exactly one unsuccessful response with the request id; success installs the play reactor; disconnect arm always raises and only the chat object text member or the raw data reach the string consumers, and the mismatch helper it calls raises VersionMismatch also for a version name the tables do not know; the secret is generated afresh on every path and kept only in a local; the transport (file object) is re-read from the connection for every packet so the cipher applies to the very next frame; the forced write writes only its own packet, and the compression / encryption arms put nothing else on the wire before the framing is switched; no two classes of a login table share an id in any supported version; the login reactor is built after the version in force is set.',
    note='Stateless dispatch makes every-order reduce to per-arm obligations; crypto numerics in C18.', ref='3/C10'),
  'C11': dict(cat='other', tech='path-sensitive effect summaries of PlayingReactor.react / read_packet / _run: per-arm obligations + three-way version-predicate agreement by folding',
-   text='Decides: keep-alive arm queues exactly one reply carrying the incoming id, same codec both ways in every version; position arm sets spawned on all paths, its version test agrees with the presence of teleport_id and the registration of TeleportConfirm in every version, each sub-arm writes one fully populated packet; unknown ids never touch the stream; disconnect arm disconnects; disconnect() stores connected = False on every exit (also when the final flush fails), which is what the exit callback is guarded by; exit callback called at one guarded site; every packet read is handed to _react before the thread reads again or leaves the loop; no version guard orders protocol numbers numerically where that differs from publication order; the keep-alive id changes its wire type at the development version the changelog names (339).',
+   text='Decides: keep-alive arm queues exactly one reply carrying the incoming id, same codec both ways in every version; position arm sets spawned on all paths, its version test agrees with the presence of teleport_id and the registration of TeleportConfirm in every version, each sub-arm writes one fully populated packet; unknown ids never touch the stream; disconnect arm disconnects; disconnect() stores connected = False on every exit (also when the final flush fails), which is what the exit callback is guarded by; exit callback called at one guarded site; every packet read is handed to _react before the thread reads again or leaves the loop; no version guard orders protocol numbers numerically where that differs from publication order; the keep-alive id changes its wire type at the development version the changelog names (339); the play packets of this property carry the published ids in every README release.',
    note='Batch-limit behaviour over long histories is a run-time quantity: not decided.', ref='3/C11'),
  'C12': dict(cat='other', tech='lockset (must-hold) analysis over the resolved call graph, who-may-call, alias-aware socket and queue census, ownership of the frame buffer and of the popped packet on path summaries',
-   text='Decides the discipline atomicity rests on: only Packet._write_buffer (and the cipher wrapper) send on the socket, two consecutive sends with no call between, from a buffer created by that very Packet.write call and held by nothing else; on every call path to _write_packet the write lock is held; the queue is only appended and popleft-ed (under the lock); disconnect flushes iff not immediate, inside the lock, before interrupt and close; the reactors write nothing between a set-compression packet and the switch of the threshold, so a queued packet is framed in the mode in force when it is written; _pop_packet reports whether it wrote a packet (what every draining loop relies on); wherever the queue is popped the popped packet goes to _write_packet exactly once and nowhere else, under the lock, and the queue is never iterated; the cipher wrapper holds nothing back.',
+   text='Decides the discipline atomicity rests on: only Packet._write_buffer (and the cipher wrapper) send on the socket, two consecutive sends with no call between, from a buffer created by that very Packet.write call and held by nothing else; on every call path to _write_packet the write lock is held; the queue is only appended and popleft-ed (under the lock); disconnect flushes iff not immediate, inside the lock, before interrupt and close; the reactors write nothing between a set-compression packet and the switch of the threshold, so a queued packet is framed in the mode in force when it is written; _pop_packet reports whether it wrote a packet (what every draining loop relies on); wherever the queue is popped the popped packet goes to _write_packet exactly once and nowhere else, under the lock, and the queue is never iterated; in Packet.write nothing is sent on a path on which the serialisation raised; the cipher wrapper holds nothing back.',
    note='Schedules themselves are not explored; the lock discipline is a path fact that holds for all of them. OS partial sends not decided.', ref='3/C12'),
  'C13': dict(cat='other', tech='path-sensitive effect summaries of _react/_write_packet/register_packet_listener/PacketListener: stage order, exception scope per call site, list choice per flag combination',
-   text='Decides: the list chosen by (early, outgoing) is the documented one for all four combinations and insertion is append; _react runs early loop, reaction, ordinary loop in that order inside one IgnorePacket-only handler; _write_packet runs early-outgoing loop, write, outgoing loop likewise; call_packet filters by isinstance and calls back at most once; the listener keeps every packet type it was registered with; the decorator form registers like the direct call however often the decorator is applied.',
+   text='Decides: the list chosen by (early, outgoing) is the documented one for all four combinations and insertion is append; _react runs early loop, reaction, ordinary loop in that order inside one IgnorePacket-only handler; _write_packet runs early-outgoing loop, write, outgoing loop likewise; call_packet filters by isinstance and calls back at most once; the listener keeps every packet type it was registered with; the decorator form registers like the direct call however often the decorator is applied. (also when the factory is a functools.partial application: the registration gets its own copy of the captured options).',
    note='What user callbacks do is not decided.', ref='3/C13'),
  'C14': dict(cat='other', tech='path-sensitive effect summaries (exceptions followed into handlers, loop exits) of run and _handle_exception: ordering, guard and re-binding relations',
-   text='Decides: _run and _handle_exit are contained by an Exception handler that, on every path that caught something, sets interrupt and dispatches it (nothing is dropped), and clears the slot in finally; first matching handler wins (break), a raising handler rebinds exc and exc_info and falls through; the final handler stage runs on both loop exits guarded only by not-in-(None, False); the record store follows it; close is guarded by the newest slot interrupt; re-raise iff final handler is None and nothing caught; early registration inserts at 0; the flag test and the close are one critical section of the write lock; the dispatcher\'s own disconnect cannot raise on a dead peer (guards take every OSError); no reactor but the status probe claims an exception; the decorator form of handler registration leaves its captured options intact; a handler can connect again because the activity check is the thread-slot condition; an exception the write phase of a networking cycle caught is re-raised at the end of that cycle on every path (only a disconnect packet clears it).',
+   text='Decides: _run and _handle_exit are contained by an Exception handler that, on every path that caught something, sets interrupt and dispatches it (nothing is dropped), and clears the slot in finally; first matching handler wins (break), a raising handler rebinds exc and exc_info and falls through; the final handler stage runs on both loop exits guarded only by not-in-(None, False); the record store follows it; close is guarded by the newest slot interrupt; re-raise iff final handler is None and nothing caught; early registration inserts at 0; the flag test and the close are one critical section of the write lock; the dispatcher\'s own disconnect cannot raise on a dead peer (guards take every OSError); no reactor but the status probe claims an exception; the decorator form of handler registration leaves its captured options intact; a handler can connect again because the activity check is the thread-slot condition; an exception the write phase of a networking cycle caught is re-raised at the end of that cycle on every path (only a disconnect packet clears it); no handler inside read_packet covers the packet decoder; a raising reactor handler does not end the dispatch.',
    note='Dynamic type match of a particular exception is not decided.', ref='3/C14'),
  'C15': dict(cat='other', tech='EOF-progress rule over the loop summaries of every stream-reading loop, frame-complete loop invariant (linear forms), loop-free error path (call graph)',
-   text='Decides: every loop containing a stream read either tests that read for emptiness each iteration with the true arm leaving the loop, or is counter-bounded; _react is called only on packets returned past the reassembly condition and no break leaves that loop; the error path to thread exit contains no stream-reading loop; wrappers preserve empty reads; status-phase EOF fallback is EOFError-only, and no other reactor reports an exception as handled (the thread would end silently); the version the fallback logs in with is the latest allowed one when no initial version was given.',
+   text='Decides: every loop containing a stream read either tests that read for emptiness each iteration with the true arm leaving the loop, or is counter-bounded; _react is called only on packets returned past the reassembly condition and no break leaves that loop; the error path to thread exit contains no stream-reading loop; wrappers preserve empty reads; status-phase EOF fallback is EOFError-only, and no other reactor reports an exception as handled (the thread would end silently); the version the fallback logs in with is the latest allowed one when no initial version was given; when the fallback itself fails the new exception is dispatched.',
    note='A numeric bound on I/O steps and select() behaviour are not decided.', ref='3/C15'),
  'C16': dict(cat='other', tech='who-may-construct (call graph), three-valued activity predicate over path decisions, effects on every exit of the lifecycle methods (path summaries), definite assignment',
    text='Decides: threads are constructed and started only in _start_network_thread under the lock on valid-state paths, whose condition is the same boolean function as _check_connection; the successor joins its predecessor before running and has emptied the successor slot on every exit; the check dominates every state change in connect/status; every attribute disconnect reads is initialised in __init__ and socket/file_object are published together; teardown runs on every exit of disconnect; every polling or counted loop of _run and of the helpers it is split into leaves on the interrupt flag; shutdown covers the read direction so a blocked reader is woken and its guard takes every OSError; the exception dispatch tests the newest slot\'s interrupt flag and closes inside one critical section of the write lock, so a connection begun meanwhile by another thread is not the one closed.',
@@ -59,10 +59,10 @@ CLAIMS = {
    text='Decides: the hash is format(int.from_bytes(sha1(utf8(server_id) || secret || key).digest(), big, signed=True), "x") - update order, encoding, byte order, signedness, lower-case hex - and the use site passes (server_id, secret, public_key) in order to join; a hand-written signed conversion is recognised and its sign test folded over all 256 first-byte values; a fast path that strips zeros on the right of the hex text is a violation (another fast path is undecided, not accepted); the server id is the String codec\'s plain UTF-8 decoding of the server\'s bytes.',
    note='Digest values are library numerics; Python format(n,"x") of a negative int equals BigInteger.toString(16).', ref='3/C17'),
  'C18': dict(cat='other', tech='term extraction of the cipher helpers (path summaries) + installation-site dataflow on the login arm\'s summaries',
-   text='Decides: cipher = Cipher(AES(s), CFB8(s)) with the same parameter as key and IV; secret = os.urandom(16) generated per encryption request; token and secret RSA-encrypted with PKCS1v15 and returned in the order the caller unpacks; one encryptor/decryptor pair per login lives in the wrappers, whose methods are single pass-through updates; nothing calls recv on the connection socket; the reading loop takes the stream from the connection for every frame; the forced write writes only the encryption response.',
+   text='Decides: cipher = Cipher(AES(s), CFB8(s)) with the same parameter as key and IV; secret = os.urandom(16) generated per encryption request; token and secret RSA-encrypted with PKCS1v15 and returned in the order the caller unpacks; one encryptor/decryptor pair per login lives in the wrappers, whose methods are single pass-through updates; nothing calls recv on the connection socket; the reading loop takes the stream from the connection for every frame; the forced write writes only the encryption response. every path to the frame writer and the queue pop holds the write lock (also the flush of disconnect), so the one encryptor sees the frames one after the other.',
    note='Interoperation with an independent CFB8 and RSA recovery are library numerics: not applicable to this technique.', ref='3/C18'),
  'C19': dict(cat='other', tech='path-sensitive effect summaries of the token operations: request-shape table agreement, stores only after the error check returned, error-mapper classification; folding of the authenticated predicate',
-   text='Decides: authenticated is the conjunction of its four inputs (16 combinations), Profile truth is id and name present; each operation posts the documented endpoint and payload keys from the documented sources; every store to token fields is dominated by the raise-on-error call; _raise_from_response returns only on OK and every other path raises with status_code set; validate true only on 204; join guarded by authenticated.',
+   text='Decides: authenticated is the conjunction of its four inputs (16 combinations), Profile truth is id and name present; each operation posts the documented endpoint and payload keys from the documented sources; every store to token fields is dominated by the raise-on-error call; _raise_from_response returns only on OK and every other path raises with status_code set; validate true only on 204; join guarded by authenticated. Text taken from the reply is only ever a formatting argument, never part of a format string.',
    note='Real HTTP encoding and requests behaviour are not decided.', ref='3/C19'),
  'C20': dict(cat='other', tech='effect/guard relations on the path summaries of the tracker apply methods and record/vector helpers; alias descriptors applied symbolically (continuation summaries); exhaustive constant folding of name_from_value over the library\'s enums',
    text='Narrow claim: only AddPlayerAction inserts into the player table, updates use a non-raising lookup and store under a guard, removal is guarded; each position axis adds under its protocol flag bit and overwrites otherwise, angles wrap last; map patch indexes with packet width / map stride / offset x,z; the descriptor each alias factory returns, applied to self, reads / stores / deletes exactly the aliased attribute path (transforms in the right direction); eq and hash enumerate the same slots, which are a pure function of the own MRO of the class (no cache a subclass could inherit) and the hash never goes through the text or identity of a value, on any returning path; vector operators preserve type and pair components; every alias factory use site passes attribute names where names belong; name_from_value is folded over its whole finite domain (every enum class of the library; for flag enums every value 0..255): a printed name parses back to the value, a union of flags has a name, a plain member is named by a member holding it.',
